@@ -33,8 +33,12 @@ func checkC03(w *World, r *Report) {
 	checkC03NoBackdoor(w, r, o)
 }
 
-func checkC03Writes(w *World, r *Report, o *Own) {
-	ru := r.Rule("C03.1", "every write hits private storage: each store to a node field, to an element of a []*node, and each in-place slice operation (sort, copy, clear, append) on a []*node targets storage that is fresh or transaction-private; functions writing through a parameter pass the obligation to each of their call sites; the writable cache only receives deep-private nodes", 50)
+func checkC03Writes(w *World, r *Report, o *Own) { checkOwnWrites(w, r, o, "C03.1") }
+
+// checkOwnWrites is the ownership rule; it is also run under C04 (uncommitted writes must not reach published storage:
+// isolation) and C05 (published storage is never written: race-freedom of lock-free readers).
+func checkOwnWrites(w *World, r *Report, o *Own, id string) {
+	ru := r.Rule(id, "every write hits private storage: each store to a node field, to an element of a []*node, and each in-place slice operation (sort, copy, clear, append) on a []*node targets storage that is fresh or transaction-private; functions writing through a parameter pass the obligation to each of their call sites; the writable cache only receives deep-private nodes", 50)
 	ru.Idiom("new(node) / &node{...} initialised in place", "clone(): make+copy of the children", "make + copy / make(0,n) + append for root sets",
 		"s[i] = new(node); s[i].f = ... in one block (slot forwarding)", "_, ok := writable.Get(p) with ok (member of the cache)", "p == nil")
 	seenFn := map[string]bool{}
